@@ -115,6 +115,29 @@ def equilibriumCheck (param : PyVal α) (nprod nreac : Int) : Except Err Unit :=
     | some M =>
       if pyEq (unitOfSimplified param) (unitOfSimplified (M.pow (nprod - nreac))) then .ok () else .error .valueError
 
+/-- the four stoichiometry dictionaries of a `Reaction` / `Equilibrium` (coefficients in dict order): active reactants and
+    products, and the INACTIVE (parenthesised, e.g. solvent) ones, which take part in the net stoichiometry but not in the
+    mass-action expression -/
+structure Stoich where
+  reac : List Nat
+  prod : List Nat
+  inactReac : List Nat := []
+  inactProd : List Nat := []
+  deriving Repr
+
+/-- `Reaction.order()` (chemistry.py 643-645): `sum(self.reac.values())` — active reactants only -/
+def Stoich.order (s : Stoich) : Int := (s.reac.sum : Nat)
+
+/-- `sum(self.prod.values())` — active products only -/
+def Stoich.nprod (s : Stoich) : Int := (s.prod.sum : Nat)
+
+/-- `Reaction.check_consistent_units` on a reaction with all four dictionaries: only `self.order()` is read -/
+def reactionCheckS (param : PyVal α) (s : Stoich) : Except Err Unit := reactionCheck param s.order
+
+/-- `Equilibrium.check_consistent_units` on an equilibrium with all four dictionaries (chemistry.py 1032):
+    `exponent = sum(self.prod.values()) - sum(self.reac.values())` — `inact_reac` / `inact_prod` are not read -/
+def equilibriumCheckS (param : PyVal α) (s : Stoich) : Except Err Unit := equilibriumCheck param s.nprod s.order
+
 /-- `c0` of `as_reactions`: `1 * units.molar`, or the int 1 for `units=None` (a rate with `.units` → ValueError "units missing") -/
 def standardConc (kf kb : Option (PyVal α)) (units : Bool) : Except Err (PyVal α) :=
   if units then (match (molar? : Option (PyVal α)) with | some M => .ok M | none => .error .attributeError)
